@@ -5,7 +5,8 @@ from props import _generic
 def run(tier, seed):
   return _generic.standard(
       'C16', 'proof', tier, seed,
-      bounded=[('c16_status_trees.py', 'random call trees x threads, identity of the status object before/after')],
+      bounded=[('c16_status_trees.py', 'random call trees x threads, identity of the status object before/after'),
+               ('rt_ctx.py', 'run-time evaluation of the stack contracts on small stacks (same object several times)')],
       explanation='stack discipline of ag_ctx/FunctionScope and the with-rule of the api wrappers proved for all '
                   'callees that leave the stack as they found it (induction over call depth); per-thread isolation '
                   'by the ownership argument (the list is reachable only through a threading.local attribute)',
